@@ -30,6 +30,12 @@ func (b *Bounds) Clone() *Bounds {
 
 // Extend extends b to include geometry g.
 func (b *Bounds) Extend(g T) *Bounds {
+	if gc, ok := g.(*GeometryCollection); ok {
+		for _, g := range gc.geoms {
+			b.Extend(g)
+		}
+		return b
+	}
 	b.extendLayout(g.Layout())
 	if b.layout == XYZM && g.Layout() == XYM {
 		return b.extendXYZMFlatCoordsWithXYM(g.FlatCoords(), 0, len(g.FlatCoords()))
